@@ -350,8 +350,11 @@ func (c *regexpSimplifyChecker) canMerge(x, y syntax.Expr) bool {
 		return false
 	}
 	switch x.Op {
-	case syntax.OpChar, syntax.OpCharClass, syntax.OpEscapeMeta, syntax.OpEscapeChar, syntax.OpNegCharClass, syntax.OpGroup:
+	case syntax.OpChar, syntax.OpCharClass, syntax.OpEscapeMeta, syntax.OpEscapeChar, syntax.OpNegCharClass:
 		return x.Value == y.Value
+	case syntax.OpGroup:
+		// Merging groups with captures would change the number of capture groups.
+		return x.Value == y.Value && !c.hasCapture(x)
 	default:
 		return false
 	}
@@ -380,8 +383,14 @@ func (c *regexpSimplifyChecker) canCombine(x, y syntax.Expr) (threshold int, ok 
 			return 2, true
 		}
 
-	case syntax.OpCharClass, syntax.OpNegCharClass, syntax.OpGroup:
+	case syntax.OpCharClass, syntax.OpNegCharClass:
 		if x.Value == y.Value {
+			return 1, true
+		}
+
+	case syntax.OpGroup:
+		// Combining groups with captures would change the number of capture groups.
+		if x.Value == y.Value && !c.hasCapture(x) {
 			return 1, true
 		}
 	}
